@@ -896,3 +896,40 @@ func (e *Eng) ndRoleQuiet(role string) *ssa.Function {
 	}
 	return found
 }
+
+// filterNotMutated (C12): the key-filter map a caller passes to Object.ForEach / Object.DeleteElems is only read: a
+// callee that deletes from or stores into it changes what the next call with the same filter reports.
+func (e *Eng) filterNotMutated() {
+	for _, key := range []string{"(*Object).ForEach", "(*Object).DeleteElems"} {
+		fn := e.fn(key)
+		if fn == nil {
+			continue
+		}
+		var mp *ssa.Parameter
+		for _, p := range fn.Params {
+			if _, isMap := p.Type().Underlying().(*types.Map); isMap {
+				mp = p
+			}
+		}
+		if mp == nil {
+			e.add("filter#not-mutated", key, []string{"C12"}, false, "no map parameter found")
+			continue
+		}
+		bad := ""
+		for _, b := range fn.Blocks {
+			for _, in := range b.Instrs {
+				switch x := in.(type) {
+				case *ssa.MapUpdate:
+					if x.Map == ssa.Value(mp) {
+						bad = "stores into the filter map at " + e.pos(in)
+					}
+				case *ssa.Call:
+					if bi, ok := x.Call.Value.(*ssa.Builtin); ok && (bi.Name() == "delete" || bi.Name() == "clear") && len(x.Call.Args) > 0 && x.Call.Args[0] == ssa.Value(mp) {
+						bad = bi.Name() + " on the filter map at " + e.pos(in)
+					}
+				}
+			}
+		}
+		e.add("filter#not-mutated", key, []string{"C12"}, bad == "", "the caller's onlyKeys map is only read "+bad)
+	}
+}
